@@ -55,6 +55,7 @@ def run(ctx):
     rule_bounds(ctx, F)
     import c06
     c06.rule_label(ctx, F)   # strings given to the zone-file scanner: labels of 1..=63 octets
+    c06.rule_empty(ctx, F)   # ... and no empty label inside a scanned name
 
 
 # ---------------------------------------------------------------------------
